@@ -50,6 +50,8 @@ Hypothesis H_owned : forall i phi k v, valid i -> In (k, v) (snd (tr i phi)) -> 
 Hypothesis H_pure : forall i phi psi,
   (forall d, In d (fst (tr i phi)) -> phi (d_id d) (d_filter d) = psi (d_id d) (d_filter d)) ->
   tr i phi = tr i psi.
+(* PartialFetch dependencies select only on what they project (see supp_wf) *)
+Hypothesis H_supp : forall i phi d, In d (fst (tr i phi)) -> supp_wf (d_filter d).
 
 Notation Dinv := (Dinv owner).
 Notation rec_ok := (rec_ok univ tr).
@@ -297,15 +299,23 @@ Lemma enqS_incl W c e x : In x (qS W) -> In x (enqS W c e).
 Proof. unfold enqS. destruct (memb c (d_cols (wD W))); [intros; apply in_app_iff; left|]; auto. Qed.
 
 Lemma object_changed_false_inv ds c e d :
-  object_changed ds c e false = false -> In d ds -> d_id d = c ->
+  object_changed ds c e false = false -> In d ds -> d_id d = c -> suppress (d_filter d) e = false ->
   forall o, In o (sev_items e) -> matches (d_filter d) o false = false.
 Proof.
-  unfold object_changed. intros H Hd Hc o Ho.
+  unfold object_changed. intros H Hd Hc Hs o Ho.
   destruct (matches (d_filter d) o false) eqn:Em; [|reflexivity].
-  assert (existsb (fun d => N.eqb (d_id d) c && existsb (fun o => matches (d_filter d) o false) (sev_items e)) ds = true).
-  { apply existsb_exists. exists d. split; [exact Hd|]. rewrite Hc, N.eqb_refl. cbn.
+  assert (existsb (fun d => N.eqb (d_id d) c && negb (suppress (d_filter d) e) &&
+                            existsb (fun o => matches (d_filter d) o false) (sev_items e)) ds = true).
+  { apply existsb_exists. exists d. split; [exact Hd|]. rewrite Hc, N.eqb_refl, Hs. cbn.
     apply existsb_exists. exists o. split; assumption. }
   congruence.
+Qed.
+
+Lemma spay_eqb_eq a b : spay_eqb a b = true -> a = b.
+Proof.
+  unfold spay_eqb. intros H. apply andb_true_iff in H. destruct H as [H H3].
+  apply andb_true_iff in H. destruct H as [H1 H2]. apply N.eqb_eq in H1, H2, H3.
+  destruct a, b. cbn in *. congruence.
 Qed.
 
 Lemma Inv_schange W c k (np : option spay) :
@@ -325,7 +335,8 @@ Proof.
     + right. right. destruct H as (H1&_).
       assert (Hcol : In c (d_cols (wD W))).
       { unfold object_changed in Ech. apply existsb_exists in Ech. destruct Ech as [d [Hd1 Hd2]].
-        apply andb_true_iff in Hd2. destruct Hd2 as [Hd2 _]. apply N.eqb_eq in Hd2. subst c.
+        apply andb_true_iff in Hd2. destruct Hd2 as [Hd2 _]. apply andb_true_iff in Hd2. destruct Hd2 as [Hd2 _].
+        apply N.eqb_eq in Hd2. subst c.
         destruct HD as (_&_&_&Hcols). eapply Hcols; eauto. }
       exists c, [e], e, (fst r). split; [|split; [left; reflexivity|split; [exact H1|exact Ech]]].
       unfold enqS. apply memb_In in Hcol. rewrite Hcol. apply in_app_iff. right. left. reflexivity.
@@ -333,11 +344,20 @@ Proof.
       assert (Heq : tr i (fetcher univ (fun c' => if N.eqb c' c then fset (wS W c) k np else wS W c')) = r).
       { symmetry. apply H_pure. intros d Hdd. unfold fetcher.
         destruct (N.eqb (d_id d) c) eqn:Ec; [|reflexivity].
-        apply N.eqb_eq in Ec. rewrite Ec. symmetry. apply fetch_unaffected; [| |exact Hu].
-        - intros p Hp. apply (object_changed_false_inv _ _ _ d Ech Hdd Ec).
-          unfold e. cbn. rewrite Hp. left. reflexivity.
-        - intros p Hp. apply (object_changed_false_inv _ _ _ d Ech Hdd Ec).
-          unfold e. cbn. subst np. apply in_app_iff. right. left. reflexivity. }
+        apply N.eqb_eq in Ec. rewrite Ec. symmetry.
+        destruct (suppress (d_filter d) e) eqn:Esup.
+        - (* the dependency ignores this update: its projected result is unchanged *)
+          unfold suppress, e in Esup. destruct (f_suppress (d_filter d)) as [n|] eqn:Efs; [|discriminate].
+          destruct (cget univ (wS W c) k) as [o|] eqn:Eo; [|discriminate].
+          destruct np as [p|]; [|discriminate]. apply spay_eqb_eq in Esup.
+          apply (fetch_suppressed univ (d_filter d) (wS W c) k o p n Efs); [|
+            unfold cget in Eo; rewrite Hu in Eo; exact Eo|exact Esup].
+          exact (H_supp i (fetcher univ (wS W)) d Hdd).
+        - apply fetch_unaffected'; [| |exact Hu].
+          + intros p Hp. apply (object_changed_false_inv _ _ _ d Ech Hdd Ec Esup).
+            unfold e. cbn. rewrite Hp. left. reflexivity.
+          + intros p Hp. apply (object_changed_false_inv _ _ _ d Ech Hdd Ec Esup).
+            unfold e. cbn. subst np. apply in_app_iff. right. left. reflexivity. }
       cbn. rewrite Heq. exact H.
   - right. left. exact H.
   - right. right. destruct H as (c0&evs&e0&ds&H1&H2&H3&H4).
